@@ -16,6 +16,12 @@ Decided clauses (necessary conditions of the property's sentences):
   C23-UPTODATE every kind of ``uptodate`` callable that a built-in loader with a caching
                subclass can store is accepted by the *sync* ``is_up_to_date`` and by the async
                one (interleaved sync/async requests hit the same cached template).
+  C23-FRESH    ("a changed source is picked up on the next request when auto-reload is on") every
+               freshness callable that a loader hands out with a template source answers by
+               *equality* of the recorded modification time and the file's current one — an
+               ordering test (``<=``) misses a source replaced by an older file (restore, rsync
+               -t, deploy preserving mtimes); and the recorded value is the one read together
+               with the source.
 
 Not decided: LRU interplay and reload timing over request histories (value level).
 """
@@ -79,7 +85,7 @@ def check_namespace_key(repo: Repo, res: Result, rule: str = "C23-NS") -> None:
 
 def run(repo: Repo) -> Result:
     res = Result(PID)
-    res.rules = ["C23-SIB", "C23-KEY", "C23-STORE", "C23-NS", "C23-MRO", "C23-UPTODATE"]
+    res.rules = ["C23-SIB", "C23-KEY", "C23-STORE", "C23-NS", "C23-MRO", "C23-UPTODATE", "C23-FRESH"]
     res.explanation = (
         "clauses of cache transparency decided on the AST of CachingLoaderMixin and the "
         "loader classes: sibling equivalence, key/name plumbing by parameter binding, "
@@ -317,6 +323,7 @@ def run(repo: Repo) -> Result:
         for n in ast.walk(sync_check.node)
     )
     async_handles_sync = any(isinstance(n, ast.Name) and n.id == "Awaitable" for n in ast.walk(async_check.node))
+    fresh_funcs: dict = {}
     for c in caching:
         for m in ("get_source", "get_source_async"):
             owner = repo.find_method(c, m)
@@ -344,6 +351,8 @@ def run(repo: Repo) -> Result:
                     tname = tgt.attr if isinstance(tgt, ast.Attribute) else text(tgt)
                     f = repo.find_method(owner.cls, tname)
                     kind = "async" if (f is not None and f.is_async) else "sync"
+                    if f is not None:
+                        fresh_funcs[f.qual] = f
                 else:
                     kind = "unknown:" + text(up)
                 res.ob(f"{c.qual}.{m}:uptodate")
@@ -367,7 +376,24 @@ def run(repo: Repo) -> Result:
                     res.add("C23-UPTODATE", c.qual, f"{m}:sync-uptodate-vs-async-check", "async freshness check cannot consume a sync uptodate", owner.file, call.lineno)
                 if kind.startswith("unknown"):
                     res.add("C23-UPTODATE", c.qual, f"{m}:{kind}", f"{owner.qual}: unrecognised uptodate value", owner.file, call.lineno)
-    res.stats.update(caching_classes=[c.qual for c in caching])
+    # --- C23-FRESH -------------------------------------------------------------
+    if not fresh_funcs:
+        raise AnchorMissing("no freshness callable (partial(self._uptodate*, ...)) found in the file-system loaders")
+    for q, f in sorted(fresh_funcs.items()):
+        res.ob(f"fresh:{q}", 2)
+        params = [p for p in f.params() if p not in ("self", "cls")]
+        cmps = [n for n in ast.walk(f.node) if isinstance(n, ast.Compare) and any(isinstance(x, ast.Attribute) and x.attr.startswith("st_mtime") for x in ast.walk(n))]
+        if not cmps:
+            res.add("C23-FRESH", q, "no-mtime-test", f"{q} does not compare the file's current modification time with the recorded one", f.file, f.line)
+            continue
+        for cmp_ in cmps:
+            sides = [cmp_.left] + list(cmp_.comparators)
+            recorded = [x for x in sides if isinstance(x, ast.Name) and x.id in params]
+            if len(cmp_.ops) != 1 or not isinstance(cmp_.ops[0], ast.Eq):
+                res.add("C23-FRESH", q, f"not-equality:{type(cmp_.ops[0]).__name__}", f"{q} answers `{text(cmp_)[:60]}`: freshness must be equality of the recorded and the current modification time — with an ordering test a source replaced by a file with an older mtime is served stale forever although auto_reload is on", f.file, cmp_.lineno)
+            elif not recorded:
+                res.add("C23-FRESH", q, "not-recorded-mtime", f"{q}: `{text(cmp_)[:60]}` does not involve the modification time recorded when the source was read (parameters {params})", f.file, cmp_.lineno)
+    res.stats.update(caching_classes=[c.qual for c in caching], freshness_callables=sorted(fresh_funcs))
     return res
 
 
@@ -387,6 +413,10 @@ def selftest(repo: Repo):
     return [
         v("swap-key-name-async", P, *load_async_swap, "C23-KEY|liquid.builtin.loaders.mixins.CachingLoaderMixin.load_async"),
         v("sync-load-passes-key", P, "                super().load,  # type: ignore\n                env,\n                name,", "                super().load,  # type: ignore\n                env,\n                cache_key,", "C23-KEY"),
+        v("async-freshness-by-ordering", "liquid/builtin/loaders/file_system_loader.py", "            None, lambda: mtime == source_path.stat().st_mtime", "            None, lambda: source_path.stat().st_mtime <= mtime", "C23-FRESH"),
+        v("sync-freshness-by-ordering", "liquid/builtin/loaders/file_system_loader.py", "        return mtime == source_path.stat().st_mtime", "        return mtime >= source_path.stat().st_mtime", "C23-FRESH"),
+        v("freshness-ignores-recorded-mtime", "liquid/builtin/loaders/file_system_loader.py", "        return mtime == source_path.stat().st_mtime", "        return source_path.stat().st_mtime == source_path.stat().st_mtime", "C23-FRESH"),
+        lambda: Variant("freshness-operands-swapped-is-silent", text_edit(repo, "liquid/builtin/loaders/file_system_loader.py", "        return mtime == source_path.stat().st_mtime", "        return source_path.stat().st_mtime == mtime", 1), "C23-", silent=True),
         v("drop-globals-on-hit", P, "        cached_template.globals = globals or {}\n        return cached_template\n\n    async def", "        return cached_template\n\n    async def", "globals-on-hit"),
         v("stale-globals-on-hit", P, "        cached_template.globals = globals or {}\n        return cached_template\n\n    async def", "        if globals:\n            cached_template.globals = globals\n        return cached_template\n\n    async def", "globals-on-hit"),
         v("no-store-on-reload", P, "        if self.auto_reload and not cached_template.is_up_to_date():\n            template = load_func()\n            self.cache[cache_key] = template\n", "        if self.auto_reload and not cached_template.is_up_to_date():\n            template = load_func()\n", "C23-STORE"),
